@@ -1,7 +1,10 @@
 package main
 
 import (
+	"fmt"
 	"go/types"
+	"sort"
+	"strings"
 
 	"golang.org/x/tools/go/ssa"
 )
@@ -403,4 +406,71 @@ func asClosure(a ssa.Value) *ssa.MakeClosure {
 		}
 	}
 	return nil
+}
+
+// ---------- C16: frame of an iteration over a map ----------
+
+// hasMapRange reports whether f iterates over a map.
+func hasMapRange(f *ssa.Function) bool {
+	for _, b := range f.Blocks {
+		for _, in := range b.Instrs {
+			if n, ok := in.(*ssa.Next); ok && !n.IsString {
+				return true
+			}
+		}
+	}
+	return false
+}
+
+// mapOrderObligation emits, for the loop driven by the map iterator step x, the frame obligation
+// "the loop modifies nothing outside the objects this function created itself": Go leaves the order
+// of a map iteration unspecified, so an effect on longer-lived state (a store through a parameter
+// or receiver, a call whose contract or inferred frame modifies something) would make that state
+// depend on the iteration order.  The frame is computed from the callees' modifies clauses (which are
+// obligations of their own) exactly as for loop cutting; the obligation is the constant true/false.
+func (c *FnCtx) mapOrderObligation(x *ssa.Next) {
+	if c.prop != "C16" {
+		return
+	}
+	l := c.loops[x.Block()]
+	if l == nil {
+		return
+	}
+	fn := c.fn
+	own := func(in ssa.Instruction) bool { return in.Parent() == fn }
+	mods := map[string]bool{}
+	var culprit ssa.Instruction
+	for _, b := range fn.Blocks {
+		if !l.Blocks[b] {
+			continue
+		}
+		for _, in := range b.Instrs {
+			if mu, ok := in.(*ssa.MapUpdate); ok {
+				if _, isConst := mu.Value.(*ssa.Const); isConst {
+					continue // inserting a constant under a key (building a set) commutes
+				}
+			}
+			n := len(mods)
+			c.V.instrMods(in, own, mods)
+			if len(mods) > n && culprit == nil {
+				culprit = in
+			}
+		}
+	}
+	var names []string
+	for m := range mods {
+		names = append(names, m)
+	}
+	sort.Strings(names)
+	f := "true"
+	text := "iteration over a map modifies nothing outside this function's own objects"
+	var at ssa.Instruction = x
+	if len(names) > 0 {
+		f = "false"
+		text += "; modified: " + strings.Join(names, ", ")
+		at = culprit
+	}
+	ob := c.assert(c.curItems, "maporder", fmt.Sprintf("loop%d/maporder", l.Ord), "", f, at, []string{"C16"}, false)
+	ob.Text = text
+	ob.Static = f
 }
